@@ -397,6 +397,47 @@ def plans(sig, net, rng):
         kw.pop("qext_w")
         kw.update(deltat_k=10., treturn_k=300.)
         add("deltat_and_treturn", kw, n, invalid=True)
+    # per-element validity rules of bulk functions: invalid rows whose defects cancel out over the list
+    if sig.bulk and sig.table == "heat_consumer":
+        nan = float("nan")
+        for kind, vals in [("cancelling_3_and_1_set_points", dict(controlled_mdot_kg_per_s=[0.25, 0.25], qext_w=[1000.0, nan], deltat_k=[10.0, nan])),
+                           ("cancelling_4_and_0_set_points", dict(controlled_mdot_kg_per_s=[0.25, nan], qext_w=[1000.0, nan], deltat_k=[10.0, nan], treturn_k=[300.0, nan])),
+                           ("cancelling_3_and_1_with_none", dict(controlled_mdot_kg_per_s=[0.25, 0.25], qext_w=[1000.0, None], treturn_k=[310.0, None])),
+                           ("deltat_and_treturn_one_row", dict(controlled_mdot_kg_per_s=[0.25, nan], qext_w=[nan, 1000.0], deltat_k=[10.0, nan], treturn_k=[300.0, 300.0]))]:
+            kw, n = valid_kwargs(sig, net, rng, n=2)
+            kw.pop("qext_w"), kw.pop("controlled_mdot_kg_per_s")
+            kw.update(vals)
+            add(kind, kw, 2, invalid=True)
+        kw, n = valid_kwargs(sig, net, rng, n=2)
+        kw.pop("qext_w"), kw.pop("controlled_mdot_kg_per_s")
+        kw.update(controlled_mdot_kg_per_s=[0.25, float("nan")], qext_w=[float("nan"), 1000.0], deltat_k=[10.0, float("nan")], treturn_k=[float("nan"), 300.0])
+        add("valid_mixed_modes", kw, 2)
+    if sig.bulk and sig.eg:
+        nan = float("nan")
+        for kind, pv, tv, ty in [("cancelling_p_and_t_rows", [5.0, nan], [300.0, nan], "auto"),
+                                 ("cancelling_types", [5.0, nan], [nan, 300.0], ["t", "p"]),
+                                 ("type_pt_one_row_without_t", [5.0, 5.0], [300.0, nan], ["pt", "pt"])]:
+            kw, n = valid_kwargs(sig, net, rng, n=2)
+            kw[sig.eg["p"]], kw[sig.eg["t"]], kw[sig.eg["type"]] = pv, tv, ty
+            add(kind, kw, 2, invalid=True)
+        kw, n = valid_kwargs(sig, net, rng, n=2)
+        kw[sig.eg["p"]], kw[sig.eg["t"]], kw[sig.eg["type"]] = [5.0, float("nan")], [float("nan"), 300.0], ["p", "t"]
+        add("valid_mixed_types", kw, 2)
+    if sig.bulk and sig.table == "valve" and len(net.pipe):
+        pipes = [int(x) for x in net.pipe.index.tolist()]
+        only_pipe = [x for x in pipes if x not in js]
+        if only_pipe:
+            pi = only_pipe[0]
+            fj = int(net.pipe.at[pi, "from_junction"])
+            only_j = [x for x in js if x not in pipes and x != fj]
+            if only_j:
+                # the same (junction, element) pairs are valid with et = ["pi", "ju"]; swapped they are both invalid
+                kw, n = valid_kwargs(sig, net, rng, n=2)
+                kw["junctions"], kw["elements"], kw["et"] = [fj, fj], [pi, only_j[0]], ["pi", "ju"]
+                add("valid_pairs_pi_ju", kw, 2)
+                kw, n = valid_kwargs(sig, net, rng, n=2)
+                kw["junctions"], kw["elements"], kw["et"] = [fj, fj], [pi, only_j[0]], ["ju", "pi"]
+                add("cancelling_et_swapped", kw, 2)
     if sig.fn == "create_mass_storage":
         kw, n = valid_kwargs(sig, net, rng)
         kw["init_m_stored_kg"] = -1.0
@@ -592,11 +633,30 @@ def first_table_diff(a, b, ignore_cols=()):
     return None
 
 
+def unsorted_types(net, rng, n, table="pipe"):
+    """n distinct std types of the net's library in an order that is NOT the sorted one"""
+    pick = rng.sample(sorted(net.std_types[table].keys()), n)
+    if pick == sorted(pick):
+        pick.reverse()
+    return pick
+
+
+def type_params(par):
+    """keyword arguments of create_pipe_from_parameters that describe a pipe std type"""
+    kwp = {k: par[k] for k in ("inner_diameter_mm", "outer_diameter_mm", "k_mm", "u_w_per_m2k") if
+           k in par and not (isinstance(par[k], float) and math.isnan(par[k]))}
+    umk = par.get("u_w_per_mk", float("nan"))
+    if "u_w_per_m2k" not in kwp and isinstance(umk, float) and not math.isnan(umk):
+        # documented conversion of a per-length value (heat types): u per outer surface
+        kwp["u_w_per_m2k"] = umk / (par["outer_diameter_mm"] * math.pi) * 1000.
+    return kwp
+
+
 def monitor_bulk_vs_fold(ctx, sigs, twins):
     import pandapipes as pp
     byname = {s.fn: s for s in sigs}
     nets = base_nets(ctx)[:3 if ctx.quick else 8]
-    variants = ["required_only", "all_optional", "scalar_broadcast", "p_only"]
+    variants = ["required_only", "all_optional", "scalar_broadcast", "p_only", "per_element_all"]
     for (bn, tn), (net_name, build), variant in itertools.product(twins, nets, variants):
         b, t = byname[bn], byname[tn]
         net0 = build()
@@ -607,14 +667,23 @@ def monitor_bulk_vs_fold(ctx, sigs, twins):
             if not b.eg:
                 continue
             kw[b.eg["t"]] = None
-        if variant in ("all_optional", "scalar_broadcast"):
+        if variant == "per_element_all":
+            # a list for EVERY per-element argument, std types included (>= 2 distinct types, not in sorted order)
+            if b.std and b.std["param"] in kw:
+                kw[b.std["param"]] = unsorted_types(net0, ctx.rng, n, b.std["table"])
+            elif not b.std:
+                continue
+            for p in list(kw):
+                if not isinstance(kw[p], (list, tuple)) and tsig.singular(p) in VAL and p != "nr_junctions":
+                    kw[p] = [kw[p] * (1 + i) for i in range(n)]
+        if variant in ("all_optional", "scalar_broadcast", "per_element_all"):
             for p, dflt in b.params:
                 if p in kw or p in ("index", "geodata", "std_type") or dflt == tsig.REQUIRED or (b.eg and p == "type"):
                     continue
                 vals = OPT_VALUES.get(p)
                 if vals is None:
                     continue
-                kw[p] = vals[0] if variant == "scalar_broadcast" else [vals[i % len(vals)] for i in range(n)]
+                kw[p] = vals[0] if variant == "scalar_broadcast" else [vals[(i + (variant == "per_element_all")) % len(vals)] for i in range(n)]
         na, nb = copy.deepcopy(net0), copy.deepcopy(net0)
         replay = {"net": net_name, "bulk": bn, "single": tn, "kwargs": jsonable(kw), "variant": variant}
         try:
@@ -786,12 +855,7 @@ def monitor_std_vs_parameters(ctx):
             common = {} if variant == "defaults" else {"loss_coefficient": 1.5, "sections": 3, "text_k": 283.0,
                                                        "name": "p", "in_service": False, "type": "x"}
             pp.create_pipe(na, 0, 1, nm, 2.0, **common)
-            kwp = {k: par[k] for k in ("inner_diameter_mm", "outer_diameter_mm", "k_mm", "u_w_per_m2k") if
-                   k in par and not (isinstance(par[k], float) and math.isnan(par[k]))}
-            umk = par.get("u_w_per_mk", float("nan"))
-            if "u_w_per_m2k" not in kwp and isinstance(umk, float) and not math.isnan(umk):
-                # documented conversion of a per-length value (heat types): u per outer surface
-                kwp["u_w_per_m2k"] = umk / (par["outer_diameter_mm"] * math.pi) * 1000.
+            kwp = type_params(par)
             pp.create_pipe_from_parameters(nb, 0, 1, 2.0, **kwp, **common)
             ctx.case({"std_vs_parameters": nm, "variant": variant}, True)
             ctx.count("std_vs_parameters")
@@ -808,6 +872,44 @@ def monitor_std_vs_parameters(ctx):
                     if key not in seen:
                         seen.add(key)
                         ctx.violation(sig, what, {"std_type": nm, "variant": variant, "parameters": jsonable(kwp)})
+
+
+def monitor_std_list_vs_parameters(ctx):
+    """create_pipes with a LIST of distinct std types in non-sorted order == one create_pipe_from_parameters per
+    element with that element's type parameters (and == one create_pipe per element)"""
+    import pandapipes as pp
+    from pandapipes.std_types.std_types import load_std_type
+    for rep in range(4 if ctx.quick else 40):
+        n = ctx.rng.choice([2, 3, 4, 6])
+        na = pp.create_empty_network(fluid="water")
+        pp.create_junctions(na, 3, 5, 300)
+        nb, nc = copy.deepcopy(na), copy.deepcopy(na)
+        types = unsorted_types(na, ctx.rng, n)
+        if rep % 2:
+            types = types + types[:1]          # a repeated type in the list
+        fj, tj = [i % 2 for i in range(len(types))], [1 + i % 2 for i in range(len(types))]
+        lens = [0.5 + 0.25 * i for i in range(len(types))]
+        replay = {"std_types": types, "how": "create_pipes(net, %s, %s, std_types, %s) vs per element create_pipe_from_parameters(params(std_type))" % (fj, tj, lens)}
+        ctx.case({"std_list_vs_parameters": types}, True)
+        ctx.count("std_list_vs_parameters")
+        pp.create_pipes(na, fj, tj, types, lens)
+        for f, t, st, l in zip(fj, tj, types, lens):
+            pp.create_pipe_from_parameters(nb, f, t, l, **type_params(load_std_type(nb, st, "pipe")))
+            pp.create_pipe(nc, f, t, st, l)
+        sa = table_snap(na)["pipe"]
+        for other, label in ((table_snap(nb)["pipe"], "create_pipe_from_parameters(parameters of the type)"),
+                             (table_snap(nc)["pipe"], "create_pipe(std_type)")):
+            for lab, ra, rb in zip(sa["index"], sa["values"], other["values"]):
+                bad = [(c, _unhex(x), _unhex(y)) for c, x, y in zip(sa["columns"], ra, rb) if x != y and
+                       not (c == "std_type" and label.startswith("create_pipe_from"))]
+                if bad:
+                    ctx.violation({"clause": "std_type_list", "twin": label.split("(")[0], "column": bad[0][0]},
+                                  "create_pipes with std types %s: pipe %s (type %r) differs from %s: %s"
+                                  % (types, lab, types[sa["index"].index(lab)], label, bad[:3]), replay)
+                    break
+            else:
+                continue
+            break
 
 
 def _unhex(v):
@@ -986,6 +1088,7 @@ def run(ctx):
     timed("bulk_vs_fold", monitor_bulk_vs_fold, ctx, sigs, twins)
     timed("bulk_series", monitor_bulk_series, ctx, sigs, twins)
     timed("std_vs_parameters", monitor_std_vs_parameters, ctx)
+    timed("std_list_vs_parameters", monitor_std_list_vs_parameters, ctx)
     timed("value_faults", monitor_value_faults, ctx, sigs)
     timed("generated_lists", monitor_generated_lists, ctx, raw)
     timed("defaults_run", monitor_defaults_run, ctx)
